@@ -33,6 +33,7 @@ type cancelSpec struct {
 	Jitter      int    `json:"jitter_us"` // free-running variant: cancel after this many microseconds instead of at a hook
 	Allow       bool   `json:"allow_failure"`
 	Interactive bool   `json:"interactive,omitempty"`
+	Nested      bool   `json:"nested,omitempty"` // the whole pipeline is included by a stage of an outer pipeline
 }
 
 type cancelHarness struct {
@@ -260,7 +261,14 @@ func modeCancel1(a args) {
 					}
 				})
 			}
-			go func() { schedDone <- sch.Schedule(g) }()
+			top := g
+			if sp.Nested {
+				top, err = scheduler.NewExecutionGraph(&scheduler.Stage{Name: "included", Pipeline: g})
+				if err != nil {
+					panic(err)
+				}
+			}
+			go func() { schedDone <- sch.Schedule(top) }()
 		} else {
 			for _, t := range tasks {
 				wg.Add(1)
